@@ -48,6 +48,9 @@ CHECKS = {
  "C11": ("exploration", "forced schedules at hook H3 (Gosched storm, forced goroutine migration) in privileged and unprivileged children, thread ids and call order observed by strace", "E6 vchild nnp + strace + hook H3", "DESIGN.md 3/C11",
          "One child per (schedule mode, privilege, NoNewPrivs, flags): between prctl and seccomp hook H3 runs nothing, a Gosched storm, or pins the current OS thread under another goroutine so the loading goroutine cannot return to it; strace records which thread issued prctl(PR_SET_NO_NEW_PRIVS, 1) and seccomp(2) and in which order; /proc state of all tasks before/after; unprivileged loads must succeed iff NoNewPrivs was requested and must leave no filter when they fail.",
          "Three schedule families, not all schedules; a refused migration (goroutine locked to its thread) counts as the property holding."),
+ "C16": ("exploration", "site-model generated listings with model-derived expectations, hostile/oversize/truncated/mutated texts and strace-injected read errors, parsed in child processes", "vc c16-worker + strace inject", "DESIGN.md 3/C16",
+         "Listings are generated from a site model (functions x site kinds incl. decoy loads, traps inside wrapper functions, traps whose load lies in the previous function, numbers outside the table) for x86_64 and i386, so the expected (number, caller) multiset is known without reading the text; function-boundary prefixes give monotonicity pairs; hostile lines, lines of 65535..1000000 bytes, a directory, truncation at every byte/line and PRNG byte mutations must neither panic nor hang; unreadable texts and reads failing with EIO at every read (strace inject) must yield an error, not a partial result. Batches run in child processes with the input on disk first.",
+         "Texts are sampled; names are compared with the kernel UAPI tables vendored under oracles/."),
 }
 
 def main():
